@@ -196,6 +196,40 @@ def case(ctx, case):
             if ent is not None and bool(((ev["entropy"] - ent).abs() > 1e-3 * ent.abs().clamp(min=1.0)).any()):
                 ctx.violation(dict(sig, q="roundtrip_entropy"), "evaluate(actions) entropy differs from the rollout's", dict(B=B))
                 return
+            # --- mini-batch round trip: PPO evaluates the stored actions on shuffled MINI-BATCHES of the rollout batch; whenever the
+            # network is a per-instance function (eval mode, or train mode without batch normalisation) the log-probs of a row must
+            # not depend on which other rows it is evaluated with
+            if B >= 2 and (not case.get("train_mode") or kind in ("am_instnorm", "am_layernorm")) and kind not in ("mdam", "polynet", "matnet"):
+                gsub = torch.Generator().manual_seed(seed + 5)
+                idx = torch.randperm(B, generator=gsub)[: max(1, B // 2)]
+                try:
+                    evs = pol(td0[idx].clone(), env, phase="train", actions=actions[idx].clone(), return_sum_log_likelihood=False, **ev_kw)["log_likelihood"]
+                except Exception as e:
+                    ctx.violation(dict(sig, q="evaluate_raises", exc=type(e).__name__, minibatch=True), f"evaluating a mini-batch of the returned actions raised {type(e).__name__}: {str(e)[:200]}", dict(B=B, idx=idx.tolist()))
+                    return
+                ctx.count("c11_minibatch_roundtrips", int(idx.numel()))
+                L = min(evs.shape[1], ll_steps.shape[1])
+                dm = (evs[:, :L].double() - ll_steps[idx][:, :L].double()).abs()
+                rest = ll_steps[idx][:, L:].abs()
+                if bool((dm > 1e-4 + noise).any()) and kind in F64_KINDS:
+                    # decide in double precision: the same rollout, then full-batch vs mini-batch evaluation
+                    from vlib.taps import Float64 as _F64, td_to64 as _t64
+
+                    with _F64(pol):
+                        torch.manual_seed(seed + 1)
+                        o64 = pol(_t64(td0), env, phase="train", decode_type=decode_type, return_actions=True, return_sum_log_likelihood=False, **dk)
+                        e64 = pol(_t64(td0)[idx], env, phase="train", actions=o64["actions"][idx].clone(), return_sum_log_likelihood=False, **ev_kw)["log_likelihood"]
+                        L64 = min(e64.shape[1], o64["log_likelihood"].shape[1])
+                        g64 = float((e64[:, :L64] - o64["log_likelihood"][idx][:, :L64]).abs().max())
+                    ctx.count("c11_float64_escalations")
+                    if g64 < 1e-7:
+                        ctx.ambiguous += 1
+                        ctx.count("c11_float32_conditioning_cases")
+                        dm = dm * 0
+                if bool((dm > 1e-4 + noise).any()) or (rest.numel() and bool((rest > 1e-5).any())):
+                    ctx.violation(dict(sig, q="roundtrip_logprob", minibatch=True), f"evaluating rows {idx.tolist()} of the rollout batch as a mini-batch gives per-step log-probs differing by up to {float(dm.max()):.4g} from the rollout's (the PPO ratio of those rows does not start at one)",
+                                  dict(B=B, n=n, decode=case["decode"], idx=idx.tolist()))
+                    return
     ctx.nontrivial_case(dict(c=case, a=actions.tolist()))
     ctx.sample(dict(case=case, ll_row0=ll_steps[0].tolist()[:6]))
 
